@@ -8,6 +8,8 @@
 EXTENDS Naturals, Sequences, FiniteSets, TLC
 
 Kinds == {"str", "int", "float", "bool", "null", "list", "dict", "missing"}
+\* hostnames also come as strings that can never name a host (empty, bracketed, with spaces or a colon, over-long, "..")
+HostKinds == Kinds \cup {"oddstr"}
 Types == {"direct-tcp-v1", "tor-tcp-v1", "relay-v1", "unknown-v9", "missing", "nonstr"}
 \* what the "hints" member of a relay-v1 entry can be
 SubKinds == {"missing", "null", "int", "str", "dict", "list"}
@@ -25,7 +27,9 @@ TcpTypes == {"direct-tcp-v1", "tor-tcp-v1"}
 \* A hint that is well-formed in every member MUST be attempted; a malformed priority makes the hint
 \* optional (the statement only bounds the attempts from above).
 Strict(h)  == h.type \in TcpTypes /\ h.hostname = "str" /\ h.port = "int" /\ h.priority \in {"int", "float", "missing"}
-Lenient(h) == h.type \in TcpTypes /\ h.hostname = "str" /\ h.port \in {"int", "bool"}
+Lenient(h) == h.type \in TcpTypes /\ h.hostname \in {"str", "oddstr"} /\ h.port \in {"int", "bool"}
+\* (a string that cannot name a host may be tried - it cannot connect - or skipped; like every malformed hint it must not
+\* raise nor keep the hints that accompany it from being tried)
 \* without Tor only direct-tcp-v1 can be dialled
 Dialable(h, tor) == h.type = "direct-tcp-v1" \/ (tor /\ h.type = "tor-tcp-v1")
 
@@ -49,7 +53,8 @@ Parse(h) == IF h.type = "relay-v1" THEN Relay("list", SelectSeq(h.sub, LAMBDA s 
 RoundTrip == \A h \in Produced : Parse(Encode(h)) = h
 
 \* ---- the enumerated space ---------------------------------------------------------------------------
-AllTcp == {Tcp(t, h, p, pr) : t \in Types \ {"relay-v1"}, h \in Kinds, p \in Kinds, pr \in Kinds}
+AllTcp == {Tcp(t, h, p, pr) : t \in Types \ {"relay-v1"}, h \in HostKinds, p \in Kinds, pr \in Kinds}
+Odd == Tcp("direct-tcp-v1", "oddstr", "int", "float")
 \* sub-hints of relays: representative malformed and well-formed ones
 SubChoices == {NonObj} \cup {Tcp(t, h, p, pr) : t \in {"direct-tcp-v1", "tor-tcp-v1", "unknown-v9", "missing", "nonstr"},
                                               h \in {"str", "int", "missing"}, p \in {"int", "str", "bool", "missing"},
@@ -58,18 +63,21 @@ AllRelay == {Relay(sk, <<>>) : sk \in SubKinds}
             \cup {Relay("list", <<s>>) : s \in SubChoices}
             \cup {Relay("list", <<s1, s2>>) : s1 \in {Tcp("direct-tcp-v1", "str", "int", pr) : pr \in {"float", "str", "dict", "null"}},
                                               s2 \in {NonObj} \cup {Tcp("direct-tcp-v1", "str", "int", pr) : pr \in {"float", "int", "str", "list", "dict", "null", "missing"}}}
+            \cup {Relay("list", <<Odd>>), Relay("list", <<Odd, Tcp("direct-tcp-v1", "str", "int", "float")>>),
+                  Relay("list", <<Tcp("direct-tcp-v1", "str", "int", "float"), Odd>>)}
 Singles == AllTcp \cup AllRelay
 \* pairs: the interplay of priorities of different kinds between two otherwise valid hints
 Good(pr) == Tcp("direct-tcp-v1", "str", "int", pr)
 Pairs == {<<Good(p1), Good(p2)>> : p1 \in Kinds, p2 \in Kinds}
          \cup {<<Relay("list", <<Good(p1)>>), Relay("list", <<Good(p2)>>)>> : p1 \in Kinds \ {"missing"}, p2 \in Kinds \ {"missing"}}
          \cup {<<Good("float"), r>> : r \in AllRelay}
+         \cup {<<Odd, Good("float")>>, <<Good("float"), Odd>>, <<Odd, Odd>>, <<Odd, Relay("list", <<Good("float")>>)>>}
 Cases == {<<h>> : h \in Singles} \cup Pairs \cup {<<>>}
 
 \* the safety statement on the abstract space: whatever is dialled has a string host and an int(-like) port
 \* and a supported type
 OnlyValidDialled == \A hs \in Cases : \A tor \in BOOLEAN : \A d \in MayDial(hs, tor) :
-    d[1].hostname = "str" /\ d[1].port \in {"int", "bool"} /\ d[1].type \in TcpTypes
+    d[1].hostname \in {"str", "oddstr"} /\ d[1].port \in {"int", "bool"} /\ d[1].type \in TcpTypes
 MustWithinMay == \A hs \in Cases : \A tor \in BOOLEAN : MustDial(hs, tor) \subseteq MayDial(hs, tor)
 
 \* one state per case, so that TLC's state count is the number of cases and each is printed once
@@ -78,5 +86,5 @@ Init == case \in Cases
 Next == UNCHANGED case
 Spec == Init /\ [][Next]_case
 Report == PrintT(<<"CASE", case, {d \in MustDial(case, FALSE) : TRUE}, {d \in MayDial(case, FALSE) : TRUE}>>)
-CaseInv == (\A d \in MayDial(case, FALSE) : d[1].hostname = "str") /\ MustDial(case, FALSE) \subseteq MayDial(case, FALSE)
+CaseInv == (\A d \in MayDial(case, FALSE) : d[1].hostname \in {"str", "oddstr"}) /\ MustDial(case, FALSE) \subseteq MayDial(case, FALSE)
 ====
